@@ -2,10 +2,10 @@ package rules
 
 import (
 	"fmt"
-	"time"
 	"go/constant"
 	"go/types"
 	"strings"
+	"time"
 
 	"golang.org/x/tools/go/ssa"
 
